@@ -383,3 +383,23 @@ Qed.
 
 Theorem not_ready_is_raw tcp insp b : conn_mode_of tcp false insp b = ModeRaw.
 Proof. unfold conn_mode_of. destruct tcp; reflexivity. Qed.
+
+(* ------------------------------------------------------------------ the manager in force after an update history *)
+Lemma manager_after_last cur h c : manager_after false cur (h ++ [c]) = Some c.
+Proof.
+  revert cur; induction h as [|x h IH]; intros cur; cbn [app manager_after].
+  - destruct cur; reflexivity.
+  - apply IH.
+Qed.
+
+(* without caching the manager in force is the one built from the LAST configuration, whatever came before *)
+Theorem inspector_after_updates h ctxs insp b :
+  ctxs <> [] ->
+  (match mode_after false (h ++ [(ctxs, insp)]) b with
+   | Some m => serves_plain m = true <-> (insp = true /\ b <> 22%N)
+   | None => False
+   end).
+Proof.
+  intros Hc. unfold mode_after. rewrite manager_after_last.
+  destruct ctxs as [|x xs]; [congruence|]. cbn [negb]. apply inspector_plain.
+Qed.
